@@ -296,6 +296,8 @@ Ltac walk leaf :=
   lazymatch goal with
   | |- (let x := ?v in @?b x) = ?r -> ?G =>
       let y := fresh "t" in pose (y := v); change (b y = r -> G); cbv beta; walk leaf
+  | |- (if left _ then ?a else _) = ?r -> ?G => change (a = r -> G); walk leaf
+  | |- (if right _ then _ else ?a) = ?r -> ?G => change (a = r -> G); walk leaf
   | |- (if ?c then _ else _) = _ -> _ => destruct c; walk leaf
   | |- _ => leaf
   end.
